@@ -48,6 +48,21 @@ CLAIMS = {
              'unwrapped method formats (finding C04-method-format)',
         technique='Lean 4 proof (stage invariants Safe / Marked over any modifier list) + correspondence',
         ref='DESIGN.md §5 C04'),
+    'C15': dict(
+        text='Lean 4 theorems about the dtml-var pipeline model: gen_modifiers / gen_sql_tables / '
+             'gen_special_formats (obligations on the tables regenerated from DT_Var on every run), '
+             'modifier_order_independent, applied_sublist, applied_iff, case_mods_are_methods, rfindSpace_spec, '
+             'truncate_spec, sql_quote_spec, thousands_commas_only_inserts_commas, missing_replaces_undefined, '
+             'null_values, null_replaces_null, pipeline_stages, tag_unquote_applies_twice, '
+             'unquote_inverts_quote_partial, finding_C15_double_unquote; correspondence on random specs x values '
+             '(str/int/None/objects/undefined/tainted) incl. permuted option order; documentation oracles on the '
+             'real tag (truncation rule, str methods on full Unicode, grouping, url round trip, sql_quote, null table)',
+        note='Trusted: Lean kernel; VarPipe model validated by correspondence; Unicode case mapping, urllib codec, '
+             'float formatting are parameters / oracle-only. Partial: url_unquote inverts url_quote only without '
+             '%XX (finding C15-double-unquote); digit grouping tested against a reference, proved only as '
+             '"inserts nothing but commas"',
+        technique='Lean 4 proof (table obligations by decide, structural lemmas) + correspondence + doc oracles',
+        ref='DESIGN.md §5 C15'),
 }
 
 NA_REASON = 'check not built yet in this round (planned, see DESIGN.md §5)'
